@@ -542,6 +542,13 @@ example : AgreesInstalled (s "/usr") [(s "/b/app", s "/usr/bin/app"), (s "/s/a.h
 example : AgreesOptions [⟨s "c", s "c"⟩, ⟨s "sp:c", s "c"⟩, ⟨s "werror", s "false"⟩]
     [⟨[], s "c", false, s "c"⟩, ⟨s "sp", s "c", false, s "c"⟩, ⟨s "sp", s "werror", true, s "false"⟩] :=
   (checkOptions_iff _ _).1 (by decide)
+/-- three addressing forms with pairwise different values: global row, top-level-only row `:name`, subproject row -/
+example : AgreesOptions [⟨s "warning_level", s "2"⟩, ⟨s ":warning_level", s "3"⟩, ⟨s "sp:warning_level", s "0"⟩]
+    [⟨[], s "warning_level", true, s "3"⟩, ⟨s "sp", s "warning_level", true, s "0"⟩, ⟨s "other", s "warning_level", true, s "2"⟩] :=
+  (checkOptions_iff _ _).1 (by decide)
+/-- the top-level-only row shows the global value although the top-level project read the override -/
+example : ¬ AgreesOptions [⟨s "warning_level", s "2"⟩, ⟨s ":warning_level", s "2"⟩] [⟨[], s "warning_level", true, s "3"⟩] :=
+  fun h => absurd ((checkOptions_iff _ _).2 h) (by decide)
 /-- native build: `build.c_args` is described by the row `c_args`; cross build: by its own row -/
 example : AgreesOptions [⟨s "c_args", s "['-DN']"⟩] [⟨[], s "build.c_args", true, s "['-DN']"⟩] := (checkOptions_iff _ _).1 (by decide)
 example : ¬ AgreesOptions [⟨s "c_args", s "['-DX']"⟩, ⟨s "build.c_args", s "[]"⟩] [⟨[], s "build.c_args", true, s "['-DX']"⟩] :=
